@@ -368,7 +368,12 @@ func (m *material) run(o op) string {
 			}
 			return ""
 		}
-		sig, err := m.priv.Sign(rand.Reader, m.msgs[i], nil)
+		// half of these: no randomness source given (nil), the library's documented fall-back to the system's source
+		var src io.Reader = rand.Reader
+		if o.Sel%4 == 2 {
+			src = nil
+		}
+		sig, err := m.priv.Sign(src, m.msgs[i], nil)
 		if err != nil {
 			return "Sign error: " + err.Error()
 		}
@@ -389,7 +394,11 @@ func (m *material) run(o op) string {
 		}
 	case "sm2_encrypt":
 		i := o.Arg % len(m.msgs)
-		ct, err := sm2.Encrypt(&m.priv.PublicKey, m.msgs[i], rand.Reader, o.Sel%2)
+		var src io.Reader = rand.Reader
+		if o.Sel%4 >= 2 {
+			src = nil // the fall-back to the system's source
+		}
+		ct, err := sm2.Encrypt(&m.priv.PublicKey, m.msgs[i], src, o.Sel%2)
 		if err != nil {
 			return "Encrypt error: " + err.Error()
 		}
@@ -874,6 +883,15 @@ func TestC20_SharedConfig(t *testing.T) {
 				cc.Certificates = []gmtls.Certificate{p.Client.TLS}
 			}
 		}
+		// the certificate chains of the shared server configuration live in slices with room behind them (a chain built by
+		// append): that room belongs to the caller and stays as it is
+		var chainRoom [][][]byte
+		for ci := range sc.Certificates {
+			ch := make([][]byte, len(sc.Certificates[ci].Certificate), len(sc.Certificates[ci].Certificate)+3)
+			copy(ch, sc.Certificates[ci].Certificate)
+			sc.Certificates[ci].Certificate = ch
+			chainRoom = append(chainRoom, ch)
+		}
 		cc.ClientSessionCache = gmtls.NewLRUClientSessionCache(rapid.IntRange(1, 4).Draw(t, "cache"))
 		// several cache keys (server addresses): lookups then touch entries that are not at the front of the LRU list
 		names := []string{"server:443"}
@@ -1106,6 +1124,13 @@ func TestC20_SharedConfig(t *testing.T) {
 		}
 		if perClient {
 			cl = append(cl, "per_client_configs")
+		}
+		for ci, ch := range chainRoom {
+			for j, e := range ch[:cap(ch)][len(ch):] {
+				if e != nil {
+					t.Fatalf("the handshakes WROTE into the room behind the shared configuration's certificate chain #%d (slot %d beyond its length %d now holds %d bytes)", ci, j, len(ch), len(e))
+				}
+			}
 		}
 		R.Case(true, hx.HashKey("shared", cn, mode, k, rotations, warm, perClient), cl...)
 		R.Sample("shared_config", map[string]interface{}{"mode": mode, "connections": k, "rotations": rotations, "resumed": resumed})
